@@ -97,11 +97,16 @@ def make_lammps(root, masses_by_type, types, pos, temperature=300.0, lmp="lmp_fa
     return eng
 
 
-def cp2k_input_dir(d, elements, pos, temperature, box=30.0):
+def cp2k_input_dir(d, elements, pos, temperature, box=30.0, cell_form="ABC"):
+    """cell_form: the three ways CP2K accepts the same orthorhombic cell: 'ABC', 'vectors' (A / B / C lines), 'angles' (ABC + ALPHA_BETA_GAMMA)."""
     os.makedirs(d, exist_ok=True)
     src = os.path.join(REPO, "examples", "cp2k", "H2", "cp2k_input", "cp2k.inp")
     txt = open(src).read().replace("TEMPERATURE 300", f"TEMPERATURE {temperature}")
-    txt = txt.replace("ABC  30.00 30.00 30.00", f"ABC  {box} {box} {box}")
+    assert "ABC  30.00 30.00 30.00" in txt
+    cell = {"ABC": f"ABC  {box} {box} {box}",
+            "vectors": f"A  {box} 0.0 0.0\n      B  0.0 {box} 0.0\n      C  0.0 0.0 {box}",
+            "angles": f"ABC  {box} {box} {box}\n      ALPHA_BETA_GAMMA  90.0 90.0 90.0"}[cell_form]
+    txt = txt.replace("ABC  30.00 30.00 30.00", cell)
     with open(os.path.join(d, "cp2k.inp"), "w") as fh:
         fh.write(txt)
     with open(os.path.join(d, "initial.xyz"), "w") as fh:
@@ -111,10 +116,10 @@ def cp2k_input_dir(d, elements, pos, temperature, box=30.0):
     return d
 
 
-def make_cp2k(root, elements, pos, temperature=300.0, cp2k="cp2k_fake", subcycles=1, timestep=0.5, sleep=0.001):
+def make_cp2k(root, elements, pos, temperature=300.0, cp2k="cp2k_fake", subcycles=1, timestep=0.5, sleep=0.001, cell_form="ABC"):
     from infretis.classes.engines.cp2k import CP2KEngine
 
-    inp = cp2k_input_dir(os.path.join(root, "cp2k_input"), elements, pos, temperature)
+    inp = cp2k_input_dir(os.path.join(root, "cp2k_input"), elements, pos, temperature, cell_form=cell_form)
     eng = CP2KEngine(cp2k, inp, timestep, subcycles, temperature, sleep=sleep)
     exe = os.path.join(root, "exe")
     os.makedirs(exe, exist_ok=True)
